@@ -28,6 +28,14 @@ impl FileSystemState {
         operations.push(FileSystemOperation::DeleteDirectory(
             artifact_directory.to_path_buf(),
         ));
+        if state.nested_files.is_empty() {
+            // Root files are written directly into the artifact directory, and later
+            // compiles assume it exists. Without nested files, no selectable directory
+            // recreates it.
+            operations.push(FileSystemOperation::CreateDirectory(
+                artifact_directory.to_path_buf(),
+            ));
+        }
 
         for (new_server_object_entity_name, new_selectable_map) in &state.nested_files {
             let new_server_object_path = artifact_directory.join(new_server_object_entity_name);
